@@ -369,7 +369,7 @@ def r_mag(E):
             else:
                 counts[verdict.split(" (")[0][:40]] = counts.get(verdict.split(" (")[0][:40], 0) + 1
                 if len(res.samples) < 8:
-                    res.samples.append({"site": f"{rel}:{n.lineno} {q}", "extraction": norm(n)[:80], "verdict": verdict})
+                    res.samples.append({"site": f"{rel}:{int(n.lineno)} {q}", "extraction": norm(n)[:80], "verdict": verdict})
     # call sites of the unit-parametric methods in model code
     for mod, (rel, tree, src) in sorted(pm.modules.items()):
         if not (rel.startswith("efootprint/core") or rel.startswith("efootprint/builders")):
@@ -407,7 +407,7 @@ def r_mag(E):
                     f"{q} rounds `{norm(recv)[:60]}` whose unit is not statically fixed: ceil/round of 0.5 TB and of "
                     f"500 GB differ, so the result depends on the unit the input was typed in", rel, n.lineno, q))
             elif len(res.samples) < 12:
-                res.samples.append({"site": f"{rel}:{n.lineno} {q}", "rounding": norm(n)[:70], "receiver_unit": u[1]})
+                res.samples.append({"site": f"{rel}:{int(n.lineno)} {q}", "rounding": norm(n)[:70], "receiver_unit": u[1]})
     res.breakdown = counts
     res.floor = 26
     return res
